@@ -98,6 +98,12 @@ def inject(prog, kind, rng, place, order, pos):
     b = a if (place == "same" or len(names) == 1) else rng.choice(names)
     if order:
         a, b = b, a
+    if kind.startswith(("msg_id_", "module_id_", "host_id_")) and os.path.basename(a) == "core_defs.yaml":
+        # the parser deliberately waives the id ranges inside a file of that name: put the out-of-range id elsewhere
+        others = [f for f in names if os.path.basename(f) != "core_defs.yaml"]
+        if not others:
+            return None
+        a = rng.choice(others)
     used = {d["id"] for d in prog["desc"]["defs"].values() if d.get("id") is not None} | set(prog["desc"]["reserved"])
     base = 7000 + rng.randint(0, 900)
     for _ in range(200):     # the injected ids (base-3 .. base+51) must be free in the generated closure
